@@ -5,7 +5,7 @@ not vacuous), and the FPU on which the known findings are exhibited (Findings/C0
 It is a *toy* FPU, not IEEE-754: a datum of 32 / 64 / 80 bits is  sign | 6-bit shift s | q  and denotes
 (−1)^sign · q · 2^s  (25 / 57 / 73 bits of q: enough for every integer of at most 65 bits rounded to 24 / 53 / 64
 significant bits).  There are no NaNs or infinities; the arithmetic operations, whose results no contract constrains,
-return their first operand.  All contracts hold (proved below); the real x87/SSE unit is validated against the same
+return their first operand (except `addsd x, x`, which doubles exactly: the hypothesis of `C02_u64f64`).  All contracts hold (proved below); the real x87/SSE unit is validated against the same
 contracts by checklib/C02.py on every run.
 -/
 import ChibiVerif.Spec.FpuSpec
@@ -214,6 +214,33 @@ theorem widen_64_80 (b : BitVec 64) : Val.same (val80 (BitVec.ofNat 80 (widen 57
   rw [dec_enc80 _ _ _ hq hs]
   exact same_refl_fin _ _ _
 
+/-! ### doubling a toy double (used for `addsd x, x`): shift + 1 -/
+
+def dbl64 (b : BitVec 64) : BitVec 64 :=
+  BitVec.ofNat 64 (enc 57 (b.toNat / 2 ^ (57 + 6) % 2 = 1) (b.toNat % 2 ^ 57) (b.toNat / 2 ^ 57 % 64 + 1))
+
+theorem dbl64_ofInt (k : Int) (hk : k.natAbs ≤ 2 ^ 64) :
+    (val64 (dbl64 (ofInt64 k))).toInt? = some (2 * roundInt 53 k) := by
+  obtain ⟨hq, hs⟩ := roundQS_bounds 53 k.natAbs (by decide) hk
+  have hq' : (roundQS 53 k.natAbs).1 < 2 ^ 57 := by
+    have : (2:Nat) ^ 53 < 2 ^ 57 := by decide
+    omega
+  have hs' : (roundQS 53 k.natAbs).2 < 64 := by omega
+  have hs'' : (roundQS 53 k.natAbs).2 + 1 < 64 := by omega
+  have hlt := enc_lt64 (decide (k < 0)) _ _ hq' hs'
+  have hlt2 := enc_lt64 (decide (k < 0)) _ _ hq' hs''
+  have hdec := dec_enc64 (decide (k < 0)) _ _ hq' hs'
+  simp only [dec, Val.fin.injEq] at hdec
+  obtain ⟨h1, h2, h3⟩ := hdec
+  have h3' : enc 57 (decide (k < 0)) (roundQS 53 k.natAbs).1 (roundQS 53 k.natAbs).2 / 2 ^ 57 % 64 = (roundQS 53 k.natAbs).2 := by
+    exact Int.ofNat.inj h3
+  simp only [val64, dbl64, ofInt64, ofIntNat, hk, if_true, BitVec.toNat_ofNat, Nat.mod_eq_of_lt hlt]
+  rw [h1, h2, h3', Nat.mod_eq_of_lt hlt2, dec_enc64 _ _ _ hq' hs'', toInt_fin, roundInt_eq]
+  have e : (roundQS 53 k.natAbs).1 * 2 ^ ((roundQS 53 k.natAbs).2 + 1) = 2 * ((roundQS 53 k.natAbs).1 * 2 ^ (roundQS 53 k.natAbs).2) := by
+    rw [Nat.pow_succ, ← Nat.mul_assoc, Nat.mul_comm]
+  rw [e]
+  split <;> simp <;> omega
+
 /-- **the toy FPU** -/
 def toy : FpuSpec where
   val32 := val32
@@ -223,7 +250,7 @@ def toy : FpuSpec where
   subss := fun a _ => a
   mulss := fun a _ => a
   divss := fun a _ => a
-  addsd := fun a _ => a
+  addsd := fun a b => if a = b then dbl64 a else a
   subsd := fun a _ => a
   mulsd := fun a _ => a
   divsd := fun a _ => a
